@@ -1146,22 +1146,33 @@ func (pid *PID) Ask(ctx context.Context, to *PID, message any, timeout time.Dura
 	select {
 	case result := <-responseCh:
 		timers.Put(timer)
-		receiveContext.responseClosed.Store(true)
+		// The responder's single send has completed, so the channel can be
+		// reused. responseClosed is left alone: the responder already set it,
+		// and by now the mailbox may have recycled this context for another
+		// request, whose reply a store here would suppress.
 		putResponseChannel(responseCh)
 		return result, nil
 	case <-ctx.Done():
 		err = errors.Join(ctx.Err(), gerrors.ErrRequestTimeout)
 		pid.handleReceivedErrorWithMessage(pid, message, err)
 		timers.Put(timer)
-		receiveContext.responseClosed.Store(true)
-		putResponseChannel(responseCh)
+		// Do not return the channel to the pool and do not touch the context:
+		// the responder may already have won its responseClosed CAS and be
+		// about to send (a pooled channel would hand that stale reply to the
+		// next Ask), and the mailbox may have recycled the context for another
+		// request (a store here would suppress that request's reply). A late
+		// reply lands in the abandoned channel and is garbage-collected with it.
 		return nil, err
 	case <-timer.C:
 		err = gerrors.ErrRequestTimeout
 		pid.handleReceivedErrorWithMessage(pid, message, err)
 		timers.Put(timer)
-		receiveContext.responseClosed.Store(true)
-		putResponseChannel(responseCh)
+		// Do not return the channel to the pool and do not touch the context:
+		// the responder may already have won its responseClosed CAS and be
+		// about to send (a pooled channel would hand that stale reply to the
+		// next Ask), and the mailbox may have recycled the context for another
+		// request (a store here would suppress that request's reply). A late
+		// reply lands in the abandoned channel and is garbage-collected with it.
 		return nil, err
 	}
 }
